@@ -64,6 +64,9 @@ public:
   void next(CellIndexes & cellIndexes);
 
 private:
+  void advance(const int & axis);
+
+private:
   GridIndexMapping<Scalar, DIM> * gridIndexMapping_;
 
   PointType rayOriginPoint_;
@@ -76,6 +79,7 @@ private:
   PointType rayTDelta_;
   PointType rayDirection_;
   Eigen::Matrix<int, DIM, 1> rayStep_;
+  Eigen::Matrix<int, DIM, 1> rayRemainingSteps_;
 
 public:
   EIGEN_MAKE_ALIGNED_OPERATOR_NEW_IF_VECTORIZABLE_FIXED_SIZE(Scalar, DIM)
